@@ -21,8 +21,9 @@ RULES = {
     "R5": "a CLI defining --seed and reaching a randomised callee wires it",
     "R6": "no lru_cache/cache-memoised function returns SeedSequence/Generator state",
     "R7": "nothing derived from a passed generator is stored on self / cls / a module global by a stateless randomised operation",
+    "R8": "a seed of 0 is a seed: no seeding constructor receives None (OS entropy) when the seed value is falsy",
 }
-MIN = {"R1": 1, "R2": 3, "R3": 20, "R4": 3, "R5": 4, "R6": 1, "R7": 10}
+MIN = {"R1": 1, "R2": 3, "R3": 20, "R4": 3, "R5": 4, "R6": 1, "R7": 10, "R8": 5}
 TRUSTED = ["numpy Generator methods are deterministic functions of the generator state", "import aliases resolved from module-level imports"]
 TECHNIQUE = "resolved-callee who-may-call rule (API allow-list), parameter-threading check over the call graph, def-use of the stored generator"
 LEVEL_TEXT = ("Determinism in (inputs, generator) is a discipline visible in the code: every draw must come from the "
@@ -357,6 +358,53 @@ def r7(ctx):
     ctx.need(n >= 10, f"only {n} functions with an rng parameter found")
 
 
+def _seedy(e):
+    return isinstance(e, (ast.Name, ast.Attribute)) and "seed" in (e.id if isinstance(e, ast.Name) else e.attr).lower()
+
+
+def _when_seed_is_zero(e):
+    """the sub-expression an expression evaluates to when every seed-named value in a truthiness position is 0
+    (`seed or X` -> X, `seed if seed else X` -> X, `X if not seed else seed` -> X); other expressions unchanged"""
+    if isinstance(e, ast.BoolOp) and isinstance(e.op, ast.Or) and _seedy(e.values[0]):
+        rest = e.values[1:]
+        return _when_seed_is_zero(rest[0] if len(rest) == 1 else ast.BoolOp(op=ast.Or(), values=rest))
+    if isinstance(e, ast.BoolOp) and isinstance(e.op, ast.And) and _seedy(e.values[0]):
+        return e.values[0]                                  # 0 and X  is 0
+    if isinstance(e, ast.IfExp):
+        t = e.test
+        if _seedy(t):
+            return _when_seed_is_zero(e.orelse)
+        if isinstance(t, ast.UnaryOp) and isinstance(t.op, ast.Not) and _seedy(t.operand):
+            return _when_seed_is_zero(e.body)
+    return e
+
+
+def r8(ctx):
+    """Seeding constructors called with an argument: when the seed value is 0 the argument must still be a value, not None.
+    (`SeedSequence(seed or None)`, `default_rng(seed if seed else None)`: seed 0 - the default of the commands - would draw
+    fresh OS entropy on every run.)  Statement-level forms end in an argument-less default_rng() and are R2's."""
+    R = ctx.R
+    n = 0
+    for q, f in sorted(R.funcs.items()):
+        env = None
+        for c in calls(f.node):
+            d = dotted(R, f.mod, c.func)
+            if d not in ("numpy.random.default_rng", "numpy.random.SeedSequence", "numpy.random.RandomState", "numpy.random.PCG64", "numpy.random.Philox"):
+                continue
+            a = c.args[0] if c.args else (kwargs(c).get("seed") or kwargs(c).get("entropy"))
+            if a is None:
+                continue
+            n += 1
+            env = env if env is not None else single_defs(f.node)
+            a = inline(a, {k: v for k, v in env.items() if isinstance(v, (ast.BoolOp, ast.IfExp))})
+            z = _when_seed_is_zero(a)
+            bad = isinstance(z, ast.Constant) and z.value is None and z is not a
+            ctx.check("R8", f"{f.site()}::{d.split('.')[-1]}({U(c.args[0] if c.args else a)[:40]})", not bad,
+                      "the seeding argument does not fall back to None for a falsy seed",
+                      f"`{U(a)}` is None when the seed is 0: seed 0 then means fresh OS entropy and two runs with --seed 0 differ")
+    ctx.need(n >= 5, f"only {n} seeded constructor calls found")
+
+
 def run(ctx):
     r1(ctx)
     r2(ctx)
@@ -365,9 +413,10 @@ def run(ctx):
     r5(ctx)
     r6(ctx)
     r7(ctx)
+    r8(ctx)
 
 
-RULE_FUNCS = [r1, r2, r3, r4, r5, r6, r7]
+RULE_FUNCS = [r1, r2, r3, r4, r5, r6, r7, r8]
 
 
 def _rep(a, b):
@@ -379,6 +428,7 @@ def _rep(a, b):
 
 
 WITNESSES = [
+    ("seed 0 falls back to OS entropy", "batchie.sampling", _rep("numpy.random.SeedSequence(seed).spawn(n_chains)", "numpy.random.SeedSequence(seed or None).spawn(n_chains)"), ["R8"]),
     ("random scorer memoises its scores on the instance", "batchie.scoring.rand", _rep("        scores = {k: rng.random() for k in plates.keys()}\n        return scores", "        if getattr(self, '_scores', None) is None:\n            self._scores = {k: rng.random() for k in plates.keys()}\n        return self._scores"), ["R7"]),
     ("generator uses global permutation", "batchie.retrospective", _rep("new_plate_names = rng.permutation(to_permute.plate_names)", "new_plate_names = np.random.permutation(to_permute.plate_names)"), ["R1"]),
     ("smoother creates its own generator", "batchie.retrospective", _rep("        results = []\n\n        for plate in screen.plates:\n            if plate.size < self.plate_size:", "        results = []\n        rng = np.random.default_rng()\n\n        for plate in screen.plates:\n            if plate.size < self.plate_size:"), ["R2"]),
